@@ -20,7 +20,7 @@ def key(case, variant, tag, step):
 
 
 def variants(idx):
-    return dict(engine=["joblib", "h5netcdf"][idx % 5 == 0], ext=(idx % 3 != 1), via_add_ds=(idx % 4 == 2),
+    return dict(engine=["joblib", "h5netcdf"][idx % 5 == 0], ext=[True, False, True, "dotted"][idx % 4], via_add_ds=(idx % 4 == 2),
                 other_harvester=(idx % 2 == 1))
 
 
